@@ -82,7 +82,8 @@ CLAIMED = {
         text=("For every generated deployment the process is made to die at EVERY completed write of the restart observer "
               "(all restart points k are enumerated); the durable bytes are loaded the documented way (read_json -> "
               "Cls.from_dict -> re-attach calculator) and the resumed run's per-step trace must equal the uninterrupted "
-              "run's suffix exactly. A sample of recoveries happens in a fresh interpreter with a random first import and "
+              "run's suffix (histories, labels, counters, integer arrays exactly; floating-point arrays within rounding, as a "
+              "restart file cannot carry the calculator's cache). A sample of recoveries happens in a fresh interpreter with a random first import and "
               "another PYTHONHASHSEED. Deployments (drivers, move tables, masks, composites, molecular exchange) are sampled."),
         note="Restart points per deployment exhaustive, deployments sampled; calculators are analytic and re-attached by the harness as the documentation says; callables excepted.",
         technique="deterministic simulation with crash-restart fault at every restart point; uninterrupted run as oracle",
